@@ -42,7 +42,10 @@ pub fn check(c: &Call, rep: &mut Report) {
         None => {
             // arguments that are valid and fit the frame must be encoded with the stated layout;
             // a refusal or a panic is not that encoding
-            if let (Some(why), Ok(Err(()))) = (exp.may_refuse, &obs.res) {
+            // the statement is about the body; a destination byte above 0x7F is swept because it is a
+            // byte parameter, but an encoder that refuses it (not a 7-bit address) encodes nothing wrong
+            let may_refuse = if c.dest > 0x7F { exp.may_refuse.or(Some("destination byte above 0x7F")) } else { exp.may_refuse };
+            if let (Some(why), Ok(Err(()))) = (may_refuse, &obs.res) {
                 rep.class(&format!("unjudged:refused:{}", why));
             } else if exp.outcome == Outcome::Ok {
                 let oc = match &obs.res {
